@@ -35,6 +35,8 @@ type vfLruRaceResult struct {
 	// phase 2: retention of live entries while Cleanup runs concurrently (capacity never reached)
 	RetentionRounds int64 `json:"retention_rounds"`
 	RetentionSweeps int64 `json:"retention_sweeps"`
+	// phase 3: lookups count as use also when other goroutines are busy with the cache
+	LruRounds int64 `json:"lru_rounds"`
 }
 
 func TestVF_CacheRace(t *testing.T) {
@@ -211,6 +213,75 @@ func TestVF_CacheRace(t *testing.T) {
 			}
 		}
 		res.RetentionRounds, res.RetentionSweeps = atomic.LoadInt64(&rounds), atomic.LoadInt64(&sweeps)
+	}
+	// ---- phase 3: "lookups count as use" under contention.  A full cache, nothing expired.  Background goroutines
+	// only call Cleanup and Get on one hot key (neither changes the relative order of the other entries).  The main
+	// loop looks up the entry that is least recently used, stores one new key (which must evict the NEXT least recently
+	// used entry) and checks, without touching the order, that the entry it just looked up is still there.
+	if !res.Deadlock {
+		const capacity = 64
+		lc := vfNewCache(capacity)
+		var queue []string // the test's own record of the recency order of the non-hot keys, least recent first
+		for i := 0; i < capacity-1; i++ {
+			k := fmt.Sprintf("e%d", i)
+			lc.Set(k, int64(i), time.Hour)
+			queue = append(queue, k)
+		}
+		lc.Set("hot", int64(-1), time.Hour)
+		stop3 := make(chan struct{})
+		var wg3 sync.WaitGroup
+		for g := 0; g < 6; g++ {
+			wg3.Add(1)
+			go func(g int) {
+				defer wg3.Done()
+				for {
+					select {
+					case <-stop3:
+						return
+					default:
+					}
+					if g%2 == 0 {
+						lc.Cleanup()
+					} else {
+						lc.Get("hot")
+					}
+				}
+			}(g)
+		}
+		end := time.Now().Add(time.Duration(vfEnvInt("VERIF_RACE_LRU_MS", 1200)) * time.Millisecond)
+		var rounds int64
+		for n := 0; time.Now().Before(end); n++ {
+			x := queue[0]
+			if _, ok := lc.Get(x); !ok {
+				problem(fmt.Sprintf("lru phase: %s, the least recently used live entry of a cache at capacity, was not found before any insertion", x))
+				break
+			}
+			queue = append(queue[1:], x) // x is now the most recently used of them
+			nk := fmt.Sprintf("n%d", n)
+			lc.Set(nk, int64(n), time.Hour) // evicts the entry at the front of the order: queue[0] (or hot, if hot is older -- it never is: it is looked up constantly)
+			evicted := queue[0]
+			queue = append(queue[1:], nk)
+			snap := vfCacheSnapshot(lc, func(interface{}) int64 { return 0 })
+			present := map[string]bool{}
+			for _, it := range snap.Items {
+				present[it.Key] = true
+			}
+			if !present[x] {
+				problem(fmt.Sprintf("lru phase: %s was looked up and then one new key was stored; the lookup did not count as use (it was evicted, %s kept) while other goroutines were using the cache", x, evicted))
+				break
+			}
+			rounds++
+		}
+		close(stop3)
+		fin3 := make(chan struct{})
+		go func() { wg3.Wait(); close(fin3) }()
+		select {
+		case <-fin3:
+		case <-time.After(30 * time.Second):
+			res.Deadlock = true
+			problem("watchdog: lru phase goroutines still blocked (deadlock suspected)")
+		}
+		res.LruRounds = rounds
 	}
 	res.Ops["set"], res.Ops["get"], res.Ops["del"], res.Ops["cleanup"] = atomic.LoadInt64(&nSet), atomic.LoadInt64(&nGet), atomic.LoadInt64(&nDel), atomic.LoadInt64(&nClean)
 	res.OpsTotal = res.Ops["set"] + res.Ops["get"] + res.Ops["del"] + res.Ops["cleanup"]
